@@ -30,6 +30,10 @@ def run_data(chk, parts, replay=None):
         chk.note_tlc(run)
         chk.absorb(recs, verdicts, rp)
     chk.exhaustive = True
+    # long random histories on the same array (beyond the BFS depth)
+    sims = (['r1_sim', 'r2_sim'] if 'array' in parts else []) + (['view1_sim'] if 'view' in parts else [])
+    for c in sims:
+        vcheck.absorb_sim(chk, rp, 'NixData', 'MC_NixData_%s.cfg' % c, 240 if chk.thorough else 24, 24)
     chk.traces_validated = len(chk.distinct)
     chk.extra['element_types'] = opts['types']
     chk.extra['compressions'] = opts['compressions']
